@@ -43,7 +43,8 @@ def defects_table():
 def seeded_table():
     sys.path.insert(0, V)
     from selftest.run import battery
-    res = battery(only=None, jobs=16)
+    js = next((a for a in sys.argv[1:] if a.endswith(".json")), None)      # the result of `selftest/run.py --json <file>`, if given
+    res = json.load(open(js)) if js else battery(only=None, jobs=16)
     rows = ["| seeded change | what was changed | reported by |", "|---------------|------------------|-------------|"]
 
     def key(s):
@@ -53,7 +54,9 @@ def seeded_table():
         r = res["seeded"][sid]
         meta = json.load(open(os.path.join(V, "seeded", sid, "meta.json")))
         rules = ", ".join(sorted({x for x in r["rules"] if re.match(r"^[A-Z]+[A-Z0-9-]*[0-9a-z/.]*$", x.split(" ")[0])})) or "—"
-        if not r["detected"]:
+        if r.get("withheld"):
+            rules = "— (verdict withheld, exit 2: the change restructures the code the rule looks at; §10.7)"
+        elif not r["detected"]:
             rules = "— (out of reach)"
         tgt = meta.get("property", sid.split("-")[0])
         note = f" (reported under {tgt})" if tgt != sid.split("-")[0] else ""
@@ -68,7 +71,10 @@ def main():
     st, counts, failed = seeded_table()
     parts = {"rules": rules_table(), "defects": dt, "seeded": st,
              "counts": f"battery on this tree: {counts['seeded_detected']} of {counts['seeded']} seeded changes reported by the "
-                       f"check of their property, {counts['twins_silent']} of {counts['twins']} twins silent; "
+                       f"check of their property ({counts.get('seeded_withheld', 0)} more end in a withheld verdict, exit 2), "
+                       f"{counts['twins_silent']} of {counts['twins']} twins silent, {counts.get('micro_silent', 0)} of {counts.get('micro', 0)} "
+                       f"micro-edits silent ({counts.get('micro_false_alarm', 0)} false alarms listed in selftest/run.py), "
+                       f"{counts.get('refactorings_no_alarm', 0)} of {counts.get('refactorings', 0)} refactorings without a VIOLATION; "
                        f"{n[0]} repaired defects and {n[1]} known finding(s) recorded; expectations {'all met' if not failed else 'NOT met: ' + str(failed)}"}
     for k, v in parts.items():
         a, b = f"<!-- GEN:{k} -->", f"<!-- /GEN:{k} -->"
